@@ -128,3 +128,46 @@ func (c *Chan[T]) Len() int {
 	}
 	return len(c.buf)
 }
+
+// SelectRecv2 replaces a select statement with two receive cases and no default (`select { case a := <-ca: ...;
+// case b := <-cb: ... }`) over BUFFERED channels. It is one scheduling point, enabled when one of the channels can
+// deliver; when both can, the first case is taken (the interleavings in which only one channel is ready exercise
+// both cases). Returns the index of the case taken and the received values.
+func SelectRecv2[A, B any](ca *Chan[A], cb *Chan[B]) (idx int, a A, b B) {
+	s := active
+	if s == nil {
+		select {
+		case a = <-ca.real:
+			return 0, a, b
+		case b = <-cb.real:
+			return 1, a, b
+		}
+	}
+	me := s.cur
+	ready := func() int {
+		if len(ca.buf) > 0 || ca.closed {
+			return 0
+		}
+		if len(cb.buf) > 0 || cb.closed {
+			return 1
+		}
+		return -1
+	}
+	s.point(&op{kind: "select", obj: ca, desc: fmt.Sprintf("select %p %p", ca, cb), enabled: func() bool { return ready() >= 0 }})
+	switch ready() {
+	case 0:
+		if len(ca.buf) > 0 {
+			a = ca.buf[0]
+			ca.buf = ca.buf[1:]
+		}
+		me.vc.join(ca.vc)
+		return 0, a, b
+	default:
+		if len(cb.buf) > 0 {
+			b = cb.buf[0]
+			cb.buf = cb.buf[1:]
+		}
+		me.vc.join(cb.vc)
+		return 1, a, b
+	}
+}
